@@ -159,3 +159,18 @@ M("c06_subsample_offset", LF, "                self.samples_since_reset % self.s
 M("c06_warning_uses_detect_bounds", LF, "                    new_r_stat < lb_warn\n                ) | (new_r_stat > ub_warn)", "                    new_r_stat < lb_warn\n                ) | (new_r_stat > ub_detect)", ["C06"])
 M("c06_pseudocount_zero_after_reset", LF, "        self._denominators = {0: {\"tpr_N\": 2, \"tnr_N\": 2, \"ppv_N\": 2, \"npv_N\": 2}}\n        self._r_stat = self._p_table.copy()\n        self._warning_states = {\n            0: {\"tpr\": False, \"tnr\": False, \"ppv\": False, \"npv\": False}\n        }\n        self._alarm_states",
   "        self._denominators = {0: {\"tpr_N\": 2, \"tnr_N\": 2, \"ppv_N\": 2, \"npv_N\": 2}}\n        self._r_stat = {0: dict(self._r_stat[max(self._r_stat)])}\n        self._warning_states = {\n            0: {\"tpr\": False, \"tnr\": False, \"ppv\": False, \"npv\": False}\n        }\n        self._alarm_states", ["C06", "C02"])
+
+MD = "menelaus/concept_drift/md3.py"
+M("c19_warning_ge", MD, "        if warning_level > warning_threshold:", "        if warning_level >= warning_threshold:", ["C19"])
+M("c19_drift_ge", MD, "            if drift_level > drift_threshold:", "            if drift_level >= drift_threshold:", ["C19"])
+M("c19_labels_counted_ge", MD, "        if len(self.oracle_data) == self.oracle_data_length_required:", "        if len(self.oracle_data) >= self.oracle_data_length_required - (1 if self.oracle_data_length_required > 3 else 0):", ["C19"])
+M("c19_refusal_after_state_change", MD, "        labeled_columns = list(labeled_sample.columns)\n", "        self.drift_state = None\n        labeled_columns = list(labeled_sample.columns)\n", ["C19"])
+M("c19_forgetting_factor", MD, "            self.reference_distribution[\"len\"] - 1\n        ) / self.reference_distribution[\"len\"]", "            self.reference_distribution[\"len\"]\n        ) / (self.reference_distribution[\"len\"] + 1)", ["C19"])
+# (equivalent within the protocol: reset() re-assigning the margin density - the confirming give_oracle_label already adopted the new reference value)
+M("c19_update_counts_refused", MD, "        if self.waiting_for_oracle == True:\n            raise ValueError(\n                \"\"\"give_oracle_label method must be called", "        if self.waiting_for_oracle == True:\n            self.total_updates += 1\n            raise ValueError(\n                \"\"\"give_oracle_label method must be called", ["C19", "C14"])
+M("c19_accuracy_on_all_folds_train", MD, "            accuracy = accuracy_score(y_test, y_pred)\n            accuracies.append(accuracy)", "            accuracy = accuracy_score(y_test, y_pred)\n            accuracies.append(accuracy if len(accuracies) else 1.0)", ["C19"])
+M("c19_md_std_sample", MD, "        md_std = np.std(margin_densities)", "        md_std = np.std(margin_densities, ddof=1)", ["C19"])
+M("c19_oracle_not_cleared", MD, "            self.oracle_data = None\n            self.waiting_for_oracle = False", "            self.waiting_for_oracle = False", ["C19"])
+M("c19_reference_not_adopted_on_ruled_out", MD, "            self.set_reference(self.oracle_data, target_name=target_column[0])\n", "            if self.drift_state == \"drift\":\n                self.set_reference(self.oracle_data, target_name=target_column[0])\n", ["C19"])
+M("c19_columns_by_count_only", MD, "        if len(labeled_columns) != len(reference_columns) or set(\n            labeled_columns\n        ) != set(reference_columns):", "        if len(labeled_columns) != len(reference_columns):", ["C19"])
+M("c19_two_sided_drift", MD, "            drift_level = self.reference_distribution[\"acc\"] - acc_labeled_samples", "            drift_level = abs(self.reference_distribution[\"acc\"] - acc_labeled_samples)", ["C19"])
